@@ -714,8 +714,10 @@ VF_PART(solvers)
 {
   auto meshes = mesh_menu(C.thorough(), 1);
   Space sp;
-  // structure: 0 one Matern, 1 Matern + nugget, 2 two Matern + nugget ; layout: 0 plain, 1 selection + undefined Z, 2 measurement error variances
-  sp.axis("mesh", (int)meshes.size()).axis("model", C.thorough() ? 10 : 3).axis("structure", 3).axis("layout", 3);
+  // structure: 0 one Matern, 1 Matern + nugget, 2 two Matern + nugget
+  // layout = 4 crossed bits: 1 selection masking samples in the middle, 2 undefined Z values in the middle, 4 measurement error variances (locator V,
+  // all values distinct), 8 samples stored in reverse order
+  sp.axis("mesh", (int)meshes.size()).axis("model", C.thorough() ? 10 : 3).axis("structure", 3).axis("layout", 16);
   for_each_case(C, sp, [&](uint64_t id, const std::vector<int>& idx) {
     const MeshSpec& ms = meshes[idx[0]];
     int ndim = ms.ndim, imod = idx[1], istr = idx[2], layout = idx[3];
@@ -744,38 +746,65 @@ VF_PART(solvers)
     std::vector<std::vector<double>> X(ndim), Z(1), T(ndim);
     int nd = 0;
     for (size_t ic = 0; ic < cells.size(); ic += std::max<size_t>(1, cells.size() / 7))
-    {
-      EV w(ndim + 1);
-      for (int r = 0; r <= ndim; r++) w[r] = r == 0 ? 0.5 : 0.5 / ndim;
-      if (nd % 2 == 1 && ndim >= 2) { w[0] = 0.25; w[1] = 0.5; for (int r = 2; r <= ndim; r++) w[r] = 0.25 / (ndim - 1); }
-      for (int d = 0; d < ndim; d++) { double v = 0; for (int r = 0; r <= ndim; r++) v += w[r] * cells[ic].T(d, r); X[d].push_back(v); }
-      Z[0].push_back((double)((nd * 5) % 7 - 3) / 2.);
-      nd++;
-    }
+      for (int rep = 0; rep < 2; rep++)
+      {  // two points per chosen cell
+        EV w(ndim + 1);
+        for (int r = 0; r <= ndim; r++) w[r] = r == 0 ? 0.5 : 0.5 / ndim;
+        if (rep == 1) { w[0] = 0.125; w[ndim] = 0.625; for (int r = 1; r < ndim; r++) w[r] = 0.25 / (ndim - 1); if (ndim == 1) w[1] = 0.875; }
+        else if ((nd / 2) % 2 == 1 && ndim >= 2) { w[0] = 0.25; w[1] = 0.5; for (int r = 2; r <= ndim; r++) w[r] = 0.25 / (ndim - 1); }
+        for (int d = 0; d < ndim; d++) { double v = 0; for (int r = 0; r <= ndim; r++) v += w[r] * cells[ic].T(d, r); X[d].push_back(v); }
+        Z[0].push_back((double)((nd * 5) % 7 - 3) / 2.);
+        nd++;
+      }
     for (auto& c : cells) for (int d = 0; d < ndim; d++) { double v = 0; for (int r = 0; r <= ndim; r++) v += c.T(d, r) / (ndim + 1.); T[d].push_back(v); }
-    std::vector<std::vector<double>> cols = X; std::vector<std::string> names, locs;
-    for (int d = 0; d < ndim; d++) { names.push_back("x" + std::to_string(d + 1)); locs.push_back("x" + std::to_string(d + 1)); }
-    cols.push_back(Z[0]); names.push_back("z1"); locs.push_back("z1");
-    if (layout == 1)
-    {
-      std::vector<double> sel(nd, 1.);
-      if (nd > 3) { sel[1] = 0.; cols[ndim][2] = TEST; }
-      cols.push_back(sel); names.push_back("sel"); locs.push_back("sel");
-    }
-    if (layout == 2)
-    {
-      std::vector<double> v(nd);
-      for (int i = 0; i < nd; i++) v[i] = (i % 3 == 0) ? 0.25 : (i % 3 == 1) ? 0.5 : 0.0625;
-      cols.push_back(v); names.push_back("v1"); locs.push_back("v1");
-    }
-    std::unique_ptr<Db> data(make_db(cols, names, locs));
+    bool bsel = layout & 1, bundef = layout & 2, bverr = layout & 4, brev = layout & 8;
+    if ((bsel || bundef) && nd < 6) return;  // not enough samples to mask some in the middle (not a case)
+    std::vector<double> selv(nd, 1.), verr(nd), zval = Z[0];
+    for (int i = 0; i < nd; i++) verr[i] = 0.0625 + 0.03125 * i;  // all distinct, all above the epsNugget floor
+    if (bsel) { selv[1] = 0.; if (nd >= 8) selv[nd / 2] = 0.; }
+    if (bundef) { zval[2] = TEST; if (nd >= 8) zval[nd - 2] = TEST; }
+    std::vector<int> order(nd);
+    for (int i = 0; i < nd; i++) order[i] = brev ? nd - 1 - i : i;
+    // reference: the samples that count (active and defined), in storage order, with their value and noise variance
+    std::vector<int> keep;
+    for (int k = 0; k < nd; k++) { int i = order[k]; if (selv[i] != 0. && !FFFF(zval[i])) keep.push_back(i); }
+    auto build_db = [&](const std::vector<int>& which, bool withsel) -> Db* {
+      std::vector<std::vector<double>> cols(ndim); std::vector<std::string> names, locs;
+      for (int d = 0; d < ndim; d++) { for (int i : which) cols[d].push_back(X[d][i]); names.push_back("x" + std::to_string(d + 1)); locs.push_back("x" + std::to_string(d + 1)); }
+      std::vector<double> c; for (int i : which) c.push_back(zval[i]);
+      cols.push_back(c); names.push_back("z1"); locs.push_back("z1");
+      if (withsel) { c.clear(); for (int i : which) c.push_back(selv[i]); cols.push_back(c); names.push_back("sel"); locs.push_back("sel"); }
+      if (bverr) { c.clear(); for (int i : which) c.push_back(verr[i]); cols.push_back(c); names.push_back("v1"); locs.push_back("v1"); }
+      return make_db(cols, names, locs);
+    };
+    std::unique_ptr<Db> data(build_db(order, bsel));
     std::unique_ptr<Db> target(make_db_xz(T, {}));
     if (!data || !target) { C.violation("setup:null", "db not built", kase); return; }
-    bool cgdet = (layout == 0 && imod == 0) || (C.thorough() && layout == 0);
+    bool cgdet = (layout == 0 && imod == 0) || (C.thorough() && (layout == 0 || layout == 7));
     KrigRun ch = run_spde(model.get(), data.get(), target.get(), mesh.get(), 1, 2);
     KrigRun cg = run_spde(model.get(), data.get(), target.get(), mesh.get(), 0, cgdet ? 2 : 1);
     C.eval();
     if (!ch.ok || !cg.ok) { C.violation("solve:spde-failed:" + mk, "SPDE kriging failed (cholesky ok=" + std::to_string(ch.ok) + ", cg ok=" + std::to_string(cg.ok) + ") " + what0, kase); return; }
+    // ---- independent reference of the data vector and of the noise variances D (from the Db content, active and defined samples only):
+    // measurement error variance of the sample when a V locator exists, else max(nugget, epsNugget * total sill of the Matern structures)
+    std::vector<double> dref, zref;
+    {
+      double totsill = 0, nug = 0;
+      for (int ic = 0; ic < model->getCovaNumber(); ic++) { if (model->getCova(ic)->getType() == ECov::NUGGET) nug = model->getCova(ic)->getSill(0, 0); else totsill += model->getCova(ic)->getSill(0, 0); }
+      double floorv = SPDEParam().getEpsNugget() * totsill;
+      for (int i : keep) { zref.push_back(zval[i]); dref.push_back(bverr ? std::max(verr[i], floorv) : std::max(nug, floorv)); }
+    }
+    auto same_vec = [](const std::vector<double>& a, const std::vector<double>& b) { if (a.size() != b.size()) return false; for (size_t i = 0; i < a.size(); i++) if (!close(a[i], b[i], 1e-12, 1e-12)) return false; return true; };
+    for (const KrigRun* kr : {&ch, &cg})
+    {
+      std::string mode = kr == &ch ? "cholesky" : "cg";
+      if (!same_vec(kr->var, dref))
+      { C.violation("solve:data-variances-not-those-of-the-active-samples:" + mode, "noise variances used " + vstr(kr->var) + " but the active, defined samples have " + vstr(dref) + " : " + what0, kase); }
+      if (!same_vec(kr->zc, zref))
+      { C.violation("solve:data-values-not-those-of-the-active-samples:" + mode, "data vector used " + vstr(kr->zc) + " but the active, defined samples have " + vstr(zref) + " : " + what0, kase); }
+    }
+    if (ch.var.size() != dref.size()) return;
+    ch.var = dref;  // everything below is judged against the reference D
     // ---- the system assembled by the harness
     int ncov = (int)ch.proj.size();
     std::vector<EM> Qs;
@@ -805,8 +834,15 @@ VF_PART(solvers)
     double lmin = es.eigenvalues().minCoeff(), lmax = es.eigenvalues().maxCoeff();
     if (!(lmin > 0) || lmax / lmin > 1e10) { C.skip(); C.outcome("excluded-ill-conditioned"); return; }
     // same data, same rhs in both modes
-    if (cg.var != ch.var || (cg.b - ch.b).cwiseAbs().maxCoeff() > 1e-12 * std::max(1., ch.b.cwiseAbs().maxCoeff()))
+    if ((cg.b - ch.b).cwiseAbs().maxCoeff() > 1e-12 * std::max(1., ch.b.cwiseAbs().maxCoeff()))
       C.violation("solve:rhs-differs-between-modes:" + mk, "right-hand side or data variances differ between Cholesky and CG modes: " + what0, kase);
+    {
+      EV zr = Eigen::Map<const EV>(zref.data(), zref.size());
+      EV bref = Aall.transpose() * (dinv.asDiagonal() * zr);
+      double db = (bref - ch.b).cwiseAbs().maxCoeff();
+      if (!(db <= 1e-10 * std::max(1., bref.cwiseAbs().maxCoeff())))
+        C.violation("solve:rhs-not-that-of-the-active-samples:" + mk, "right-hand side differs from A' D^-1 z of the active samples by " + fmt(db) + " : " + what0, kase);
+    }
     EV xs = Ac.ldlt().solve(ch.b);
     // ---- residuals
     double nb = 0;  // the library's normalisation: sum of the Euclidean norms of the blocks of b
@@ -875,6 +911,33 @@ VF_PART(solvers)
       C.outcome(dq == 0 ? "quad-equal" : dq < 1e-10 ? "quad-diff<1e-10" : dq < 1e-6 ? "quad-diff<1e-6" : "quad-diff>=1e-6");
     }
     else C.violation("solve:size:" + mk, "centred data vector has " + std::to_string(z.size()) + " values for " + std::to_string(ndat) + " variances: " + what0, kase);
+    // ---- differential: masked / undefined samples vs the same samples physically removed from the Db (both solver paths)
+    if (bsel || bundef)
+    {
+      std::unique_ptr<Db> red(build_db(keep, false));
+      KrigRun ch2 = run_spde(model.get(), red.get(), target.get(), mesh.get(), 1, 2);
+      KrigRun cg2 = run_spde(model.get(), red.get(), target.get(), mesh.get(), 0, 1);
+      if (!ch2.ok || !cg2.ok || ch2.est.size() != ch.est.size() || cg2.est.size() != cg.est.size())
+        C.violation("masked-vs-removed:run-failed:" + mk, "SPDE kriging on the physically reduced Db failed: " + what0, kase);
+      else
+      {
+        double d1 = 0, d2 = 0, sc = 1;
+        for (size_t i = 0; i < ch.est.size(); i++) { d1 = std::max(d1, std::fabs(ch.est[i] - ch2.est[i])); d2 = std::max(d2, std::fabs(cg.est[i] - cg2.est[i])); sc = std::max(sc, std::fabs(ch.est[i])); }
+        double tol1 = 1e-9 * sc * (1. + lmax / lmin * 1e-3);
+        if (!(d1 <= tol1)) C.violation("masked-vs-removed:estimate:cholesky:" + mk, "kriging with masked/undefined samples differs from kriging on the reduced Db by " + fmt(d1) + " : " + what0, kase);
+        if (!(d2 <= 2 * bound_tol + tol1)) C.violation("masked-vs-removed:estimate:cg:" + mk, "CG kriging with masked/undefined samples differs from CG kriging on the reduced Db by " + fmt(d2) + " : " + what0, kase);
+        auto rel = [](double a, double b) { return std::fabs(a - b) / std::max({1., std::fabs(a), std::fabs(b)}); };
+        double tl = 1e-9 * (1. + std::log10(lmax / lmin)) * (1. + lmax / lmin * 1e-4);
+        if (!(rel(ch.quad, ch2.quad) <= tl)) C.violation("masked-vs-removed:quad:cholesky:" + mk, "quadratic term " + fmt(ch.quad) + " (masked) vs " + fmt(ch2.quad) + " (removed) : " + what0, kase);
+        if (!(rel(ch.logdetTotal, ch2.logdetTotal) <= tl)) C.violation("masked-vs-removed:logdet:cholesky:" + mk, "log-determinant " + fmt(ch.logdetTotal) + " (masked) vs " + fmt(ch2.logdetTotal) + " (removed) : " + what0, kase);
+        if (!(rel(ch.loglik, ch2.loglik) <= tl)) C.violation("masked-vs-removed:loglik:cholesky:" + mk, "log-likelihood " + fmt(ch.loglik) + " (masked) vs " + fmt(ch2.loglik) + " (removed) : " + what0, kase);
+        double qscale = std::max({1., std::fabs(cg.quad), std::fabs(cg2.quad)});
+        if (!(std::fabs(cg.quad - cg2.quad) <= 2 * (ch.b.norm() * std::sqrt(eps * std::max(nb, 1e-300)) / lmin * 1.001) + 1e-9 * qscale * (1. + lmax / lmin * 1e-4)))
+          C.violation("masked-vs-removed:quad:cg:" + mk, "CG quadratic term " + fmt(cg.quad) + " (masked) vs " + fmt(cg2.quad) + " (removed) : " + what0, kase);
+        C.outcome(d1 == 0 ? "masked-vs-removed:bitwise" : "masked-vs-removed:within-tolerance");
+      }
+    }
+    C.outcome(std::string("layout:") + (bsel ? "sel" : "-") + (bundef ? "+undef" : "") + (bverr ? "+V" : "") + (brev ? "+rev" : ""));
     C.outcome(dmax == 0 ? "est-equal" : dmax < 1e-10 ? "est-diff<1e-10" : dmax < 1e-7 ? "est-diff<1e-7" : dmax < 1e-4 ? "est-diff<1e-4" : "est-diff>=1e-4");
     C.outcome("ncov=" + std::to_string(ncov) + ",ndat=" + std::to_string(ndat));
     double rr = rcg.norm();
